@@ -767,7 +767,12 @@ func (u *Unmarshaler) processNamedFieldWithValue(fieldType reflect.Type, value r
 
 			options := opts.options()
 			if len(options) > 0 {
-				if !stringx.Contains(options, mapValue.(string)) {
+				// 值的 Kind 是 String，但类型可能是 json.Number（文档里写的是裸数字）
+				optionValue, ok := mapValue.(string)
+				if !ok {
+					optionValue = fmt.Sprint(mapValue)
+				}
+				if !stringx.Contains(options, optionValue) {
 					return fmt.Errorf(`错误：字段 "%s" 的值 "%s" 未定义在选项 "%v" 中`,
 						key, vp, options)
 				}
